@@ -221,14 +221,17 @@ def pair(ctx):
             er = [pos for kind, pos, _ in ev if kind == "elem" and pos in oer]
             if not er:
                 continue
-            n_paths += 1
             est = oer[er[0]]
             it = _iter_arg(f, est)
+            if _erased_nothing(f, est, ev):
+                continue        # erase(key) reported 0 on this path: nothing was removed, nothing to pair
+            n_paths += 1
             finds = [tfind[pos] for kind, pos, _ in ev if kind == "elem" and pos in tfind]
             keys = [path(f, f.s(s["args"][0])) for s in finds]
             want = set()
             if it:
                 want.add(it + "->first")
+                want.add(it)        # erase(key): the tag entry is erased / looked up with the same key expression
                 # key the iterator was looked up with
                 for st in _map_calls(f, "objectMap"):
                     if st["callee"]["name"] == "find":
@@ -261,8 +264,8 @@ def pair(ctx):
     for f in fb.functions(rec=CLS, name="addObject"):
         calls = list(_map_calls(f, "objectMap"))
         names = sorted({(s.get("callee") or {}).get("name", "[]") for s in calls})
-        ok = names == ["emplace"]
-        ctx.ob(rid, ok, f.where, "addObject inserts with emplace only (an existing name is never replaced)",
+        ok = bool(names) and set(names) <= set(NON_REPLACING)
+        ctx.ob(rid, ok, f.where, "addObject inserts with a non-replacing insertion only (an existing name is never replaced)",
                "" if ok else "objectMap operations: %s" % names, fn=f.label, inst=f.qname)
         rets = [s for s in f.stmts.values() if s["k"] == "ReturnStmt"]
         ok = bool(rets) and all(_is_second_of_emplace(f, f.children(r)[0]) for r in rets)
@@ -275,7 +278,7 @@ def pair(ctx):
             ctx.broken("too many paths in " + f.label)
         tm = {tuple(f.pos_of(st)): st for st in _map_calls(f, "typeMap")
               if (st.get("callee") or {}).get("name") in ("emplace", "insert", "erase", "operator[]", "insert_or_assign", "clear")}
-        om = [st for st in _map_calls(f, "objectMap") if (st.get("callee") or {}).get("name") not in ("find", "end", "emplace")]
+        om = [st for st in _map_calls(f, "objectMap") if (st.get("callee") or {}).get("name") not in ("find", "end") + NON_REPLACING]
         ctx.ob(rid, not om, f.where, "copyObject inserts with emplace only", "" if not om else
                "objectMap.%s" % om[0]["callee"]["name"], fn=f.label, inst=f.qname)
         for p in ps:
@@ -297,6 +300,43 @@ def pair(ctx):
             else:
                 ctx.ob(rid, True, f.where, "copyObject touches typeMap only when the new name was inserted", "",
                        fn=f.label, inst=f.qname)
+
+
+NON_REPLACING = ("emplace", "try_emplace", "insert", "emplace_hint")     # std::map: all keep an existing element
+
+
+def _erased_nothing(f, est, ev):
+    """erase(key) returns the number of elements removed: True on a path that branched on that number being zero"""
+    for kind, pos, val in ev:
+        if kind != "branch":
+            continue
+        cond = f.s(f.blocks[pos[0]].term.get("cond"))
+        if cond is None or not any(d["id"] == est["id"] for d in [cond] + list(f.descendants(cond))):
+            continue
+        c = unwrap(f, cond)
+        neg = False
+        while c is not None and c["k"] == "UnaryOperator" and c.get("op") == "!":
+            neg = not neg
+            c = unwrap(f, f.children(c)[0])
+        if c is None:
+            return False
+        if c["k"] == "BinaryOperator" and c.get("op") in ("==", "!=", ">", "<", ">=", "<="):
+            l, r = [unwrap(f, x) for x in f.children(c)]
+            lit = r if (r is not None and r["k"] == "IntegerLiteral") else l if (l is not None and l["k"] == "IntegerLiteral") else None
+            if lit is None:
+                return False
+            op, v = c["op"], lit.get("v")
+            if lit is l:
+                op = {"<": ">", ">": "<", "<=": ">=", ">=": "<="}.get(op, op)
+            zero_when_true = (op == "==" and v == 0) or (op == "<" and v == 1) or (op == "<=" and v == 0)
+            zero_when_false = (op == "!=" and v == 0) or (op == ">" and v == 0) or (op == ">=" and v == 1)
+            if neg:
+                zero_when_true, zero_when_false = zero_when_false, zero_when_true
+            return (zero_when_true and val) or (zero_when_false and not val)
+        # `if (objectMap.erase(name))` / `if (!objectMap.erase(name))`
+        if c["id"] == est["id"] or any(d["id"] == est["id"] for d in f.descendants(c)):
+            return (not val) != neg
+    return False
 
 
 def _iter_arg(f, call):
@@ -323,7 +363,7 @@ def _is_second_of_emplace(f, e):
                         while init is not None and init["k"] in CTORS and len(init["args"]) == 1:
                             init = unwrap(f, f.s(init["args"][0]))
                         return init is not None and init["k"] == "CXXMemberCallExpr" and \
-                            init["callee"]["name"] == "emplace" and path(f, f.s(init["obj"])) == "this.objectMap"
+                            init["callee"]["name"] in NON_REPLACING and path(f, f.s(init["obj"])) == "this.objectMap"
     return False
 
 
